@@ -59,6 +59,16 @@ CLAIMS = {
          "C20.R1 drain before acknowledging; C20.R2 single consumer started once, one undivided Write per entry; C20.R4 one enqueue per accepted log call; C20.R5 FlushLogger called directly before os.Exit and deferred in Run",
          "the one-second timeout; the writers' own behaviour; all interleavings"),
 
+ 'C01': ("AST-level codec event extraction (grammar over generated proxy and dispatcher bodies) with shape comparison per interface function; provenance of context/status through every hop (AST + SSA access paths); reaching-definition check of the call outcome; filter-chain shape and invoke-once analysis; emitter sibling agreement in the generator",
+         "C01.R1 proxy and dispatcher agree on tag/shape of every argument and result (30 functions x 3 variants); C01.R2 wire names and packet types; C01.R4 context/status plumbing h1-h7; C01.R7 filter selection order, middleware wrap order, invoke exactly once; C01.R10 decoded arguments reach the implementation in position, server error code/message reach the caller; C10.R1/R2/R4/R5 identity echo, one reply, outcome not overwritten by filters, versions; C16.R4 generator emitter siblings",
+         "values (C02/C03), TCP, concurrency of callers, exactly-once delivery at run time"),
+ 'C03': ("AST-level codec event extraction of all generated WriteTo/ReadFrom/WriteBlock/ReadBlock bodies into shapes; comparison with the Go type, the struct tag and an independent reading of the .tars IDL files; guard/default agreement with ResetDefault; generator template/emitter checks",
+         "C03.R1 schema = writer = reader per member (128 members); C03.R2 ascending tags, each member once; C03.R3 presence guards agree with the reader's defaults; C03.R5 block framing; C03.R6 bindings follow the IDL (tags, require, types, defaults, enums, constants, interface signatures); C04.R4 un-read symmetry; C16.R3/R4 template identifiers and emitter siblings; C01.R1 parameters",
+         "value equality for all inputs; what the generator prints for an arbitrary IDL (only its emitter structure)"),
+ 'C16': ("EOF-consistency abstract interpretation of every parser/lexer loop (constant folding of token tests with the EOF constant, callee summaries `cannot return at EOF`) plus progress analysis; recursion-consumes-input check; recover/exit analysis of the entry point; resolution of template identifiers against package codec; AST sibling analysis of the emitters; independent IDL reader vs checked-in bindings",
+         "C16.R1 the front end terminates on every input (all unbounded loops advance and cannot spin at EOF; include recursion is cut); C16.R2 diagnostics are recovered into exit 1; C16.R3 every codec identifier in a template exists; C16.R4 emitter siblings (type cases, element tags, argument/result tags, counter before recursion, loop-local temporaries, loop bound snapshot); C16.R5 generator findings K1/K2/K6 (known); C03.R6 checked-in bindings follow the IDL",
+         "that arbitrary valid IDL yields compiling code; byte-for-byte reproduction of the checked-in files (needs running the generator)"),
+
 }
 
 checks = []
@@ -83,7 +93,7 @@ for p in props:
             "technique": tech,
         })
     else:
-        na.append({"property_id": pid, "reason": "check not built yet (build in progress; rules are designed in DESIGN.md section 4)"})
+        na.append({"property_id": pid, "reason": "no rule built"})
 
 m = {
  "version": 1,
